@@ -14,7 +14,7 @@ PROP = {
                     "list elements are fully evaluated values (a lazy list stored inside another value is C08's business); maps are seen as entry lists in iteration order with pairwise different keys (C13's business)",
                     "lists handed to order/orderRev/orderLess have at most 12 items and map/accept stay below the parallel switch of MapAuto (C06's business)",
                     "strings are sequences of Unicode scalar values; trim/toLower/toUpper are modelled on ASCII strings only"],
-    "residue": "Specification side for failures: an error inside the callback of a lazy stage (or a comparison of a sort that fails on some pairs only) is required to surface only if the element is demanded, so for such cases the eager reference accepts an error or a value and exactness rests on implementation = model (3 of 1646 quick cases). Measured on the quick run: 2.2 % of the cases are outside the model (answer 'unsupported': closure as a data argument, inexact float, unmodelled built-in) and are skipped for implementation = model; 3.2 % are not judged by the eager reference (top/skip with negative n, whose meaning the description leaves open, and the same unsupported cases); a panic is a violation even then.",
+    "residue": "Specification side for failures: an error inside the callback of a lazy stage (or a comparison of a sort that fails on some pairs only) is required to surface only if the element is demanded, so for such cases the eager reference accepts an error or a value and exactness rests on implementation = model (1 of 1446 quick cases, seed 1). Measured on the quick run: 2.3 % of the cases are outside the model (answer 'unsupported': closure as a data argument, inexact float, unmodelled built-in) and are skipped for implementation = model; 3.1 % are not judged by the eager reference (top/skip with negative n, whose meaning the description leaves open, and the same unsupported cases); a panic is a violation even then.",
     # built-ins with an implementation model and correspondence but without a refinement lemma yet
     "correspondence_only": ["list.minMax (documented model d_minMax is compared on every case, no lemma)", "list.groupByEqual / groupByInt / groupByString (first-occurrence model + check_groups verdict, checker soundness proved, model-satisfies-checker not proved)",
                             "list.uniqueInt / uniqueString (check_unique verdict)", "list.movingWindow", "list.movingWindowRemove", "list.eval",
